@@ -5,10 +5,12 @@ CONSTANTS
   MaxCrashes = 2
   Protocol = "atomic"
   SignalDeath = "success"
+  MkdirMode = "idempotent"
 INVARIANT TypeOK
 INVARIANT NoPartialLoad
 INVARIANT EveryoneGetsAKernel
 INVARIANT NothingPartialLeft
 INVARIANT FinalNeverPartial
+INVARIANT NoneBroken
 PROPERTY Terminates
 CHECK_DEADLOCK FALSE
